@@ -190,6 +190,8 @@ BadEntries == {Entry(TargetVer, TargetVer, "S1.Nope"),    \* unknown RPC of a kn
 EntryChoices(G) ==
   IF Scope = "bad"
   THEN {Good(S) \cup {b} : S \in {{}, {"S1.GetA"}, {"S1.ListB", "S2.Other"}}, b \in BadEntries}
+  ELSE IF OneByOne     \* confluence run: every interleaving of single-node steps, for at most two listed RPCs
+  THEN {Good(S) : S \in {T \in SUBSET RpcNames(G) : Cardinality(T) <= 2}}
   ELSE {Good(S) : S \in SUBSET RpcNames(G)}
 
 Init == /\ g \in Graphs
@@ -226,13 +228,17 @@ StepOut(G, u, x) ==
     [] OTHER                        -> Out(G, u, x)
 Frontier(u, S) == UNION {StepOut(g, u, x) : x \in S} \ S
 
+\* derivation rank of the nodes added by this step (not recorded in the confluence run: the state would then depend on the
+\* order of the steps and not only on the set reached so far)
+Stamp == IF OneByOne THEN 0 ELSE step + 1
+
 StepReach == /\ phase = "reach"
              /\ LET F == Frontier(FALSE, reach) IN
                 IF F = {} THEN /\ phase' = "up" /\ up' = reach /\ rankUp' = rank
                                /\ UNCHANGED <<reach, rank, step>>
                 ELSE \E add \in (IF OneByOne THEN {{x} : x \in F} ELSE {F}) :
                        /\ reach' = reach \cup add
-                       /\ rank' = [x \in reach' |-> IF x \in reach THEN rank[x] ELSE step + 1]
+                       /\ rank' = [x \in reach' |-> IF x \in reach THEN rank[x] ELSE Stamp]
                        /\ step' = step + 1
                        /\ UNCHANGED <<phase, up, rankUp>>
              /\ UNCHANGED <<g, entries, mode>>
@@ -242,7 +248,7 @@ StepUp == /\ phase = "up"
              IF F = {} THEN /\ phase' = "closed" /\ UNCHANGED <<up, rankUp, step>>
              ELSE \E add \in (IF OneByOne THEN {{x} : x \in F} ELSE {F}) :
                     /\ up' = up \cup add
-                    /\ rankUp' = [x \in up' |-> IF x \in up THEN rankUp[x] ELSE step + 1]
+                    /\ rankUp' = [x \in up' |-> IF x \in up THEN rankUp[x] ELSE Stamp]
                     /\ step' = step + 1
                     /\ UNCHANGED phase
           /\ UNCHANGED <<g, entries, mode, reach, rank>>
@@ -299,7 +305,7 @@ Inv_ClosedDown == Closed /\ Sel = "prune" => \A x \in reach, y \in Nodes(g) : Do
 \* ... and nothing kept (in the permitted upper bound) refers outside it, enclosing messages included
 Inv_ClosedUp == Closed /\ Sel = "prune" => \A x \in up, y \in Nodes(g) : UpRel(g, x, y) => y \in up
 \* least fixed points: every element has a derivation from the listed RPCs by strictly earlier elements
-Inv_Least == Closed /\ Sel = "prune" =>
+Inv_Least == Closed /\ Sel = "prune" /\ ~OneByOne =>
                /\ \A y \in reach : y \in Listed \/ \E x \in reach : rank[x] < rank[y] /\ Down(g, x, y)
                /\ \A y \in up : y \in Listed \/ \E x \in up : rankUp[x] < rankUp[y] /\ UpRel(g, x, y)
 \* the iteration agrees with the independent recursive definition
